@@ -7,7 +7,7 @@ open S3V.StoreSpec
 
 /-- `head_object` comparable: names agree; for admissible names, when the bucket exists the path is not a leftover
     directory [else fs:leftover-directory]. A missing key in an existing bucket is inside since d6f1a3c (`NoSuchKey`
-    on both sides; before: fs:head-missing-key-code); since 3751248 the answers agree in every member, the ETag included
+    on both sides; before: fs:head-missing-key-code); since 42c2f29 the answers agree in every member, the ETag included
     (before: fs:head-without-etag) -/
 def HeadOk (s : State) (b k : Bytes) : Prop :=
   NameOk b ∧ CanonKey k ∧ sideTooLong b k false = false ∧
@@ -120,7 +120,7 @@ theorem inv_remove_buckets {s : State} (hi : Inv s) {b : Bytes} {t : Tree} {p : 
 /-- `delete_object` comparable: names agree; for admissible names, when the bucket exists the path is not a leftover
     directory [else fs:leftover-directory]. A key that does not exist (success on both sides; before:
     fs:delete-missing-key-error) and a missing bucket (`NoSuchBucket` on both sides; before:
-    fs:missing-bucket-reported-as-missing-key) are inside since fe75a0e -/
+    fs:missing-bucket-reported-as-missing-key) are inside since 20fee59 -/
 def DeleteOk (s : State) (b k : Bytes) : Prop :=
   NameOk b ∧ CanonKey k ∧
   (bucketOk b = true →
@@ -261,7 +261,7 @@ theorem absTree_nil_iff_files {s : State} {b : Bytes} {t : Tree} : absTree s b t
     | file c => simp at this
 
 /-- `delete_bucket`: any name both sides accept or both refuse; a bucket that holds objects is refused by both
-    (`BucketNotEmpty`, dbc4627; before: fs:delete-nonempty-bucket), an empty one — directories left behind do not count —
+    (`BucketNotEmpty`, 24de822; before: fs:delete-nonempty-bucket), an empty one — directories left behind do not count —
     is gone on both sides -/
 theorem deleteBucket_refines (H : Hashes) (dl : Nat) {s : State} (hi : Inv s) {b : Bytes} (hname : NameOk b) :
     (step H dl s (.deleteBucket b)).2 = (StoreSpec.step H (abs s) (.deleteBucket b)).2 ∧
